@@ -85,6 +85,25 @@ func opsClassify(p opsPoint, s, g opsOutcome) []opsFinding {
 func runOps(prop, tier, replay string) {
 	run := ev.Start(prop, tier, "model_checking")
 	if replay != "" {
+		var hp hdrPoint
+		if prop == "C02" && loadReplay(replay, &hp) == nil && hp.Ctx != "" && hp.E != nil {
+			hdrCheckBatch(run, []hdrPoint{hp})
+			run.Set("states", 1)
+			run.Set("transitions", 1)
+			run.Set("traces_validated_against_impl", 1)
+			run.Sample(hp)
+			run.Finish()
+		}
+		var fl flowBody
+		if prop == "C02" && loadReplay(replay, &fl) == nil && len(fl.Ops) > 0 {
+			flowFaithfulBatch(run, []flowBody{fl}, "replay")
+			run.Eval("x")
+			run.Set("states", 1)
+			run.Set("transitions", 1)
+			run.Set("traces_validated_against_impl", 1)
+			run.Sample(fl)
+			run.Finish()
+		}
 		var p opsPoint
 		if err := loadReplay(replay, &p); err != nil {
 			run.Infra(err)
@@ -142,6 +161,13 @@ func runOps(prop, tier, replay string) {
 		n := selectForC03(run)
 		points += n
 		run.Set("selector_lookups", n)
+	}
+	if prop == "C02" { // statement structure: valid bodies of Flow.tla reproduced as the same program
+		st3, tr3, n3 := flowFaithfulRun(run, tier)
+		states, transitions, points = states+st3, transitions+tr3, points+n3
+		run.Set("flow_bodies_compared", n3)
+		st4, tr4, n4 := hdrRun(run, tier) // expressions in statement headers (Headers.tla)
+		states, transitions, points = states+st4, transitions+tr4, points+n4
 	}
 	run.Set("statement_points", pts2)
 	run.Set("states", states)
